@@ -54,6 +54,7 @@ func c02Run(optimize bool, src string, names []string, args []value.Value) (res 
 			res.outcome = fmt.Sprintf("PANIC %v", r)
 		}
 	}()
+	crumb("program: " + src)
 	f, _, err := fg.Generate(src, names...)
 	res.genImpure = len(log.impure)
 	if err != nil {
